@@ -256,7 +256,22 @@ func init() {
 		"(*strings.Builder).copyCheck":   extNop,
 
 		"github.com/tidwall/gjson.fillIndex": extNop,
+		"(*encoding/json.Decoder).Decode": extJSONDecoderDecode,
 		"encoding/json.Marshal": func(fr *frame, a []value) value {
+			if it0, ok := a[0].(iface); ok {
+				_, isSlice := it0.v.([]value)
+				isIntSlice := false
+				if st, ok := it0.t.(*types.Slice); ok && isSlice {
+					if b, ok := st.Elem().Underlying().(*types.Basic); ok && b.Info()&types.IsInteger != 0 {
+						isIntSlice = true
+					}
+				}
+				if !isIntSlice {
+					if r := extJSONMarshalGeneric(fr, a); r != fallThrough {
+						return r
+					}
+				}
+			}
 			// only the concrete []int / []byte-free uses of the code base
 			it := a[0].(iface)
 			if sl, ok := it.v.([]value); ok {
@@ -1167,6 +1182,9 @@ func extAtomicValueStore(fr *frame, args []value) value {
 // host's encoding/json; every other use falls through to the interpreted
 // library (whose reflection is mostly outside the engine's model).
 func extJSONUnmarshal(fr *frame, args []value) value {
+	if r := extJSONUnmarshalGeneric(fr, args); r != fallThrough {
+		return r
+	}
 	itf, ok := args[1].(iface)
 	if !ok || itf.t == nil {
 		return fallThrough
